@@ -81,6 +81,12 @@ for _pid, _a, _what in (("C01", "a01", "outcome, stacks and output equal the ref
         "weight_by_harness": [("^c01_t_exec_", 6), ("^c01_t_dispatch_", 4), ("_swap_d[23]$", 2), ("^c01_exec_(if_else_e2|push_empty)", 2)],
     }
 
+# C02 "the inputs": the input-variable instruction goes through PushState::with_input; on the MIR (bin/mirinput) the step it performs may succeed or
+# fail and the state handed back -- with the result or with the error -- must still hold every declared input (N5)
+PROPS["C02"]["mirinput"] = {"quick": 2, "thorough": 3}
+PROPS["C02"]["mirinput_labels"] = ["N5"]
+PROPS["C02"]["functions"] = PROPS["C02"]["functions"] + ["MIR of PushState::with_input (+ closures) and the generated with_<type>_input / build (bin/mirinput, z3): inputs kept after a successful and after a FAILED input instruction"]
+
 PROPS["C04"] = {
     "features": ["c04"],
     "modules": ["c04_stack::"],
